@@ -1,6 +1,1124 @@
-//! codegen ops. Stub until the layer is built. Mirror of coq/Extract/Ops*.v
+//! codegen ops (C08, C09). Mirror of coq/Extract/OpsCodegen.v (op 3410 only; 3401..3403 are implementation-only
+//! ops: the check judges them with oracles written from the property text, there is no model line for them).
+//!
+//! All text ops take the char codes of one or more ASN.1 module texts (several modules are separated by code 0)
+//! and push them through the crate's real pipeline:
+//!   Tokenizer -> Model::try_from -> try_resolve (MultiModuleResolver for several modules) -> to_rust (= R1)
+//!   -> RustCodeGenerator text -> syn::parse_file -> per item with `#[asn(..)]`:
+//!   asn1rs_model::proc_macro::parse_asn_definition(attribute tokens, item tokens)  (what rustc hands the macro)
+//!   -> Model{definitions:[d]}.to_rust_keep_names() (= R2, what `expand` uses) -> proc_macro::expand(d) text.
+//!
+//! op 3401  -> 0 nmod { ndef { <R1 dump> <R2 answer> <consts answer> }*ndef }*nmod
+//!               <R1 dump>      = len ints..                      (canonical dump of the Definition<Rust>, see `dump_def`)
+//!               <R2 answer>    = 0 len ints.. | 1 stage | 2 stage class
+//!               <consts answer>= 0 k (trait self name type value)*k   (five length-prefixed strings, blanks removed,
+//!                                  `::asn1rs::descriptor::` -> `D::`, `::asn1rs::model::asn::` -> `M::`)
+//!                              | 1 stage | 2 stage class
+//!          | 1 stage kind | 2 stage class          (whole-module failure; stage 1 parse, 2 resolve, 3 to_rust,
+//!                                                    4 generator, 5 generated text is not a Rust file (syn),
+//!                                                    6 number of #[asn] items != number of definitions)
+//!            per-definition stages: 10 parse_asn_definition Err, 11 parse_asn_definition None,
+//!                                   12 to_rust_keep_names, 13 expand, 14 expanded text is not a Rust file
+//! op 3402  -> 0 n (ns scope name)*n m (scope name type value)*m   identifiers and constant declarations found in the
+//!             generated text (line scanner, no Rust parser involved, so illegal identifiers come out verbatim) plus
+//!             the item names of the macro expansion where the re-parse worked.
+//!               ns: 0 module  1 type (file scope)  2 value (file scope)  3 field  4 variant  5 associated item
+//!                   6 imported name  7 module path segment of an import
+//! op 3403  -> 0 nmod (file name, text)*nmod as length-prefixed strings | 1 stage kind | 2 stage class
+//! op 3410 kind name.. -> 0 mangled..      the crate's own name mangling functions (kind: see `op_3410`)
+//! op 3412 <aty>       -> 0 <tokens of the printed attribute> <0 <re-parsed type> | 1>   (coq/Extract/OpsCodegen.v run_attr)
+//! op 3411 name..      -> 0 ident keyword   Rust lexical facts according to proc_macro2 / syn (see `op_3411`)
 use crate::I;
+use asn1rs_model::asn::{Charset, MultiModuleResolver, Size, Tag, TagProperty};
+use asn1rs_model::generate::rust::RustCodeGenerator;
+use asn1rs_model::generate::Generator;
+use asn1rs_model::parse::Tokenizer;
+use asn1rs_model::rust::{EncodingOrdering, Rust, RustType};
+use asn1rs_model::{Definition, LiteralValue, Model};
 
-pub fn run(_op: I, _a: &[I]) -> Vec<I> {
-    vec![-1]
+extern "C" {
+    fn dup(fd: i32) -> i32;
+    fn dup2(from: i32, to: i32) -> i32;
+    fn close(fd: i32) -> i32;
 }
+
+/// Run `f` with file descriptor 1 pointing at /dev/null (restored afterwards, also when `f` panics).
+fn silenced<T>(f: impl FnOnce() -> T) -> T {
+    use std::io::Write;
+    use std::os::fd::AsRawFd;
+    struct Restore(i32);
+    impl Drop for Restore {
+        fn drop(&mut self) {
+            let _ = std::io::stdout().flush();
+            unsafe {
+                dup2(self.0, 1);
+                close(self.0);
+            }
+        }
+    }
+    let _ = std::io::stdout().flush();
+    let Ok(null) = std::fs::OpenOptions::new().write(true).open("/dev/null") else { return f() };
+    let saved = unsafe { dup(1) };
+    if saved < 0 {
+        return f();
+    }
+    unsafe { dup2(null.as_raw_fd(), 1) };
+    let _restore = Restore(saved);
+    f()
+}
+
+// ------------------------------------------------------------------ canonical dump of the Rust model
+
+fn p_str(o: &mut Vec<I>, s: &str) {
+    let cs: Vec<char> = s.chars().collect();
+    o.push(cs.len() as I);
+    o.extend(cs.iter().map(|c| *c as u32 as I));
+}
+
+fn p_tag(o: &mut Vec<I>, t: Option<Tag>) {
+    match t {
+        None => o.push(0),
+        Some(Tag::Universal(n)) => o.extend([1, 0, n as I]),
+        Some(Tag::Application(n)) => o.extend([1, 1, n as I]),
+        Some(Tag::ContextSpecific(n)) => o.extend([1, 2, n as I]),
+        Some(Tag::Private(n)) => o.extend([1, 3, n as I]),
+    }
+}
+
+fn p_size(o: &mut Vec<I>, s: &Size) {
+    match s {
+        Size::Any => o.push(0),
+        Size::Fix(n, e) => o.extend([1, *n as I, *e as I]),
+        Size::Range(a, b, e) => o.extend([2, *a as I, *b as I, *e as I]),
+    }
+}
+
+fn p_charset(o: &mut Vec<I>, c: Charset) {
+    o.push(match c {
+        Charset::Utf8 => 0,
+        Charset::Numeric => 1,
+        Charset::Printable => 2,
+        Charset::Ia5 => 3,
+        Charset::Visible => 4,
+    })
+}
+
+fn p_lit(o: &mut Vec<I>, l: &LiteralValue) {
+    match l {
+        LiteralValue::Boolean(b) => o.extend([0, *b as I]),
+        LiteralValue::String(s) => {
+            o.push(1);
+            p_str(o, s)
+        }
+        LiteralValue::Integer(v) => o.extend([2, *v as I]),
+        LiteralValue::OctetString(v) => {
+            o.extend([3, v.len() as I]);
+            o.extend(v.iter().map(|b| *b as I));
+        }
+        LiteralValue::EnumeratedVariant(a, b) => {
+            o.push(4);
+            p_str(o, a);
+            p_str(o, b)
+        }
+    }
+}
+
+fn p_int(o: &mut Vec<I>, kind: I, min: Option<I>, max: Option<I>, ext: bool) {
+    o.extend([1, kind]);
+    match min {
+        Some(v) => o.extend([1, v]),
+        None => o.extend([0, 0]),
+    }
+    match max {
+        Some(v) => o.extend([1, v]),
+        None => o.extend([0, 0]),
+    }
+    o.push(ext as I);
+}
+
+fn p_type(o: &mut Vec<I>, t: &RustType) {
+    match t {
+        RustType::Bool => o.push(0),
+        RustType::I8(r) => p_int(o, 0, Some(r.0 as I), Some(r.1 as I), r.2),
+        RustType::U8(r) => p_int(o, 1, Some(r.0 as I), Some(r.1 as I), r.2),
+        RustType::I16(r) => p_int(o, 2, Some(r.0 as I), Some(r.1 as I), r.2),
+        RustType::U16(r) => p_int(o, 3, Some(r.0 as I), Some(r.1 as I), r.2),
+        RustType::I32(r) => p_int(o, 4, Some(r.0 as I), Some(r.1 as I), r.2),
+        RustType::U32(r) => p_int(o, 5, Some(r.0 as I), Some(r.1 as I), r.2),
+        RustType::I64(r) => p_int(o, 6, Some(r.0 as I), Some(r.1 as I), r.2),
+        RustType::U64(r) => p_int(o, 7, r.0.map(|v| v as I), r.1.map(|v| v as I), r.2),
+        RustType::String(s, c) => {
+            o.push(2);
+            p_size(o, s);
+            p_charset(o, *c)
+        }
+        RustType::VecU8(s) => {
+            o.push(3);
+            p_size(o, s)
+        }
+        RustType::BitVec(s) => {
+            o.push(4);
+            p_size(o, s)
+        }
+        RustType::Vec(inner, s, ord) => {
+            o.extend([5, matches!(ord, EncodingOrdering::Sort) as I]);
+            p_size(o, s);
+            p_type(o, inner)
+        }
+        RustType::Null => o.push(6),
+        RustType::Option(inner) => {
+            o.push(7);
+            p_type(o, inner)
+        }
+        RustType::Default(inner, lit) => {
+            o.push(8);
+            p_type(o, inner);
+            p_lit(o, lit)
+        }
+        RustType::Complex(name, tag) => {
+            o.push(9);
+            p_str(o, name);
+            p_tag(o, *tag)
+        }
+    }
+}
+
+fn p_consts(o: &mut Vec<I>, cs: &[(String, String)]) {
+    o.push(cs.len() as I);
+    for (n, v) in cs {
+        p_str(o, n);
+        p_str(o, v);
+    }
+}
+
+fn p_ext(o: &mut Vec<I>, e: Option<usize>) {
+    o.push(e.map_or(-1, |v| v as I))
+}
+
+/// name, then 0 struct | 1 enum | 2 data enum | 3 tuple struct
+fn dump_def(Definition(name, rust): &Definition<Rust>) -> Vec<I> {
+    let mut o = Vec::new();
+    p_str(&mut o, name);
+    match rust {
+        Rust::Struct { ordering, fields, tag, extension_after } => {
+            o.extend([0, matches!(ordering, EncodingOrdering::Sort) as I]);
+            p_tag(&mut o, *tag);
+            p_ext(&mut o, *extension_after);
+            o.push(fields.len() as I);
+            for f in fields {
+                p_str(&mut o, f.name());
+                p_type(&mut o, f.r#type());
+                p_tag(&mut o, f.tag());
+                p_consts(&mut o, f.constants());
+            }
+        }
+        Rust::Enum(e) => {
+            o.push(1);
+            p_tag(&mut o, e.tag());
+            p_ext(&mut o, e.extension_after_index());
+            o.push(e.len() as I);
+            for v in e.variants() {
+                p_str(&mut o, v);
+            }
+        }
+        Rust::DataEnum(e) => {
+            o.push(2);
+            p_tag(&mut o, e.tag());
+            p_ext(&mut o, e.extension_after_index());
+            o.push(e.len() as I);
+            for v in e.variants() {
+                p_str(&mut o, v.name());
+                p_type(&mut o, v.r#type());
+                p_tag(&mut o, v.tag());
+            }
+        }
+        Rust::TupleStruct { r#type, tag, constants } => {
+            o.push(3);
+            p_type(&mut o, r#type);
+            p_tag(&mut o, *tag);
+            p_consts(&mut o, constants);
+        }
+    }
+    o
+}
+
+// ------------------------------------------------------------------ the pipeline
+
+fn text_of(a: &[I]) -> Vec<String> {
+    a.split(|c| *c == 0)
+        .map(|part| part.iter().map(|c| char::from_u32(*c as u32).unwrap_or('\u{fffd}')).collect::<String>())
+        .collect()
+}
+
+/// ASN.1 texts -> Rust models (one per module), as `src/converter.rs` / `proc_macro::asn_to_rust` do it
+fn front(texts: &[String]) -> Result<Vec<Model<Rust>>, Vec<I>> {
+    fn stage<T>(s: I, r: Result<T, I>) -> Result<T, Vec<I>> {
+        r.map_err(|c| vec![2, s, c])
+    }
+    if texts.len() == 1 {
+        let model = stage(1, crate::catch(|| Model::try_from(Tokenizer.parse(&texts[0]))))?.map_err(|_| vec![1, 1, 0])?;
+        let model = stage(2, crate::catch(|| model.try_resolve()))?.map_err(|_| vec![1, 2, 0])?;
+        let rust = stage(3, crate::catch(|| silenced(|| model.to_rust())))?;
+        Ok(vec![rust])
+    } else {
+        let mut mm = MultiModuleResolver::default();
+        for t in texts {
+            let model = stage(1, crate::catch(|| Model::try_from(Tokenizer.parse(t))))?.map_err(|_| vec![1, 1, 0])?;
+            mm.push(model);
+        }
+        let models = stage(2, crate::catch(|| mm.try_resolve_all()))?.map_err(|_| vec![1, 2, 0])?;
+        stage(
+            3,
+            crate::catch(|| {
+                silenced(|| {
+                    let scope = models.iter().collect::<Vec<_>>();
+                    models.iter().map(|m| m.to_rust_with_scope(&scope[..])).collect::<Vec<_>>()
+                })
+            }),
+        )
+    }
+}
+
+fn generate(rust: &Model<Rust>) -> Result<(String, String), Vec<I>> {
+    let r = crate::catch(|| {
+        let mut g = RustCodeGenerator::default();
+        g.add_model(rust.clone());
+        g.to_string().map(|v| v.into_iter().next())
+    });
+    match r {
+        Err(c) => Err(vec![2, 4, c]),
+        Ok(Err(_)) | Ok(Ok(None)) => Err(vec![1, 4, 0]),
+        Ok(Ok(Some(f))) => Ok(f),
+    }
+}
+
+/// removes white space outside of string literals
+fn compact(s: &str) -> String {
+    let mut out = String::with_capacity(s.len());
+    let (mut in_str, mut esc) = (false, false);
+    for c in s.chars() {
+        if in_str {
+            out.push(c);
+            if esc {
+                esc = false;
+            } else if c == '\\' {
+                esc = true;
+            } else if c == '"' {
+                in_str = false;
+            }
+        } else if c == '"' {
+            in_str = true;
+            out.push(c);
+        } else if !c.is_whitespace() {
+            out.push(c);
+        }
+    }
+    out
+}
+
+fn is_asn_attr(a: &syn::Attribute) -> bool {
+    a.path().segments.first().map_or(false, |s| s.ident == "asn")
+}
+
+/// The items of the generated file that carry `#[asn(..)]`: (attribute tokens, item tokens without that attribute)
+fn asn_items(file: &syn::File) -> Vec<(proc_macro2::TokenStream, proc_macro2::TokenStream)> {
+    use quote::ToTokens;
+    let mut out = Vec::new();
+    for item in &file.items {
+        let mut item = item.clone();
+        let attrs = match &mut item {
+            syn::Item::Struct(s) => &mut s.attrs,
+            syn::Item::Enum(e) => &mut e.attrs,
+            _ => continue,
+        };
+        let Some(pos) = attrs.iter().position(is_asn_attr) else { continue };
+        let attr = attrs.remove(pos);
+        let tokens = match &attr.meta {
+            syn::Meta::List(l) => l.tokens.clone(),
+            _ => proc_macro2::TokenStream::new(),
+        };
+        out.push((tokens, item.to_token_stream()));
+    }
+    out
+}
+
+/// blanks removed and the two crate path prefixes of generate/walker.rs shortened to `D::` / `M::`
+fn short(s: &str) -> String {
+    compact(s).replace("::asn1rs::descriptor::", "D::").replace("::asn1rs::model::asn::", "M::")
+}
+
+fn path_string(p: &syn::Path) -> String {
+    use quote::ToTokens;
+    short(&p.to_token_stream().to_string())
+}
+
+/// (trait path, self type, const name, const type, const value) of every associated const of every trait impl
+fn expanded_consts(file: &syn::File) -> Vec<[String; 5]> {
+    use quote::ToTokens;
+    let mut out = Vec::new();
+    for item in &file.items {
+        let syn::Item::Impl(imp) = item else { continue };
+        let Some((_, tr, _)) = &imp.trait_ else { continue };
+        let tr = path_string(tr);
+        let me = compact(&imp.self_ty.to_token_stream().to_string());
+        for it in &imp.items {
+            match it {
+                syn::ImplItem::Const(c) => out.push([
+                    tr.clone(),
+                    me.clone(),
+                    c.ident.to_string(),
+                    short(&c.ty.to_token_stream().to_string()),
+                    short(&c.expr.to_token_stream().to_string()),
+                ]),
+                syn::ImplItem::Type(t) => out.push([
+                    tr.clone(),
+                    me.clone(),
+                    format!("type {}", t.ident),
+                    String::new(),
+                    short(&t.ty.to_token_stream().to_string()),
+                ]),
+                _ => {}
+            }
+        }
+        // the order in which read_seq reads the fields (SET: canonical order) as a pseudo constant
+        for it in &imp.items {
+            let syn::ImplItem::Fn(f) = it else { continue };
+            if f.sig.ident != "read_seq" && f.sig.ident != "write_seq" {
+                continue;
+            }
+            let body = compact(&f.block.to_token_stream().to_string());
+            let mut names = Vec::new();
+            let (pre, post) = if f.sig.ident == "read_seq" { (":AsnDef", "::read_value(reader)?") } else { ("AsnDef", "::write_value(writer,&self.") };
+            let mut rest = body.as_str();
+            while let Some(p) = rest.find(pre) {
+                let after = &rest[p + pre.len()..];
+                let end = after.find("::").unwrap_or(after.len());
+                if after[end..].starts_with(post) {
+                    names.push(after[..end].to_string());
+                }
+                rest = after;
+            }
+            out.push([tr.clone(), me.clone(), format!("fn {}", f.sig.ident), String::new(), names.join(",")]);
+        }
+    }
+    out
+}
+
+struct Reparsed {
+    r2: Vec<I>,
+    consts: Vec<I>,
+    /// names of the items the expansion adds at file scope
+    items: Vec<String>,
+}
+
+fn reparse(attr: proc_macro2::TokenStream, item: proc_macro2::TokenStream) -> Reparsed {
+    let mut items = Vec::new();
+    let parsed = crate::catch(|| silenced(|| asn1rs_model::proc_macro::parse_asn_definition(attr, item).map(|(d, _)| d)));
+    let def = match parsed {
+        Err(c) => return Reparsed { r2: vec![2, 10, c], consts: vec![2, 10, c], items },
+        Ok(Err(_)) => return Reparsed { r2: vec![1, 10], consts: vec![1, 10], items },
+        Ok(Ok(None)) => return Reparsed { r2: vec![1, 11], consts: vec![1, 11], items },
+        Ok(Ok(Some(d))) => d,
+    };
+    let d2 = def.clone();
+    let r2 = match crate::catch(|| {
+        silenced(|| {
+            let model: Model<asn1rs_model::proc_macro::AsnModelType> =
+                Model { name: "__proc_macro".to_string(), definitions: vec![d2], ..Default::default() };
+            model.to_rust_keep_names()
+        })
+    }) {
+        Err(c) => vec![2, 12, c],
+        Ok(m) => {
+            let mut o = vec![0];
+            let mut body = Vec::new();
+            // one definition is expected; more (or none) would be visible as a longer/shorter dump
+            body.push(m.definitions.len() as I);
+            for d in &m.definitions {
+                body.extend(dump_def(d));
+            }
+            o.push(body.len() as I);
+            o.extend(body);
+            o
+        }
+    };
+    let consts = match crate::catch(|| {
+        silenced(|| {
+            asn1rs_model::proc_macro::expand(Some(def)).iter().map(|ts| ts.to_string()).collect::<Vec<_>>().join("\n")
+        })
+    }) {
+        Err(c) => vec![2, 13, c],
+        Ok(text) => match syn::parse_file(&text) {
+            Err(_) => vec![1, 14],
+            Ok(file) => {
+                for it in &file.items {
+                    match it {
+                        syn::Item::Type(t) => items.push(t.ident.to_string()),
+                        syn::Item::Struct(s) => items.push(s.ident.to_string()),
+                        _ => {}
+                    }
+                }
+                let cs = expanded_consts(&file);
+                let mut o = vec![0, cs.len() as I];
+                for c in &cs {
+                    for s in c {
+                        p_str(&mut o, s);
+                    }
+                }
+                o
+            }
+        },
+    };
+    Reparsed { r2, consts, items }
+}
+
+fn op_3401(a: &[I]) -> Vec<I> {
+    let texts = text_of(a);
+    let rusts = match front(&texts) {
+        Ok(r) => r,
+        Err(e) => return e,
+    };
+    let mut out = vec![0, rusts.len() as I];
+    for rust in &rusts {
+        let (_file, text) = match generate(rust) {
+            Ok(f) => f,
+            Err(e) => return e,
+        };
+        if std::env::var("A1H_CODEGEN_DEBUG").is_ok() {
+            eprintln!("{}", text);
+        }
+        let file = match syn::parse_file(&text) {
+            Ok(f) => f,
+            Err(_) => return vec![1, 5, 0],
+        };
+        let items = asn_items(&file);
+        if items.len() != rust.definitions.len() {
+            return vec![1, 6, 0];
+        }
+        out.push(rust.definitions.len() as I);
+        for (def, (attr, item)) in rust.definitions.iter().zip(items) {
+            let d1 = dump_def(def);
+            out.push(d1.len() as I);
+            out.extend(d1);
+            let r = reparse(attr, item);
+            out.extend(r.r2);
+            out.extend(r.consts);
+        }
+    }
+    out
+}
+
+// ------------------------------------------------------------------ op 3402: identifiers of the generated text
+
+fn is_ident_char(c: char) -> bool {
+    c.is_alphanumeric() || c == '_' || c == '#' || c == '-' || !c.is_ascii()
+}
+
+/// the maximal run of "name-like" characters at the start of `s`
+fn name_at(s: &str) -> &str {
+    let end = s.char_indices().find(|(_, c)| !is_ident_char(*c)).map_or(s.len(), |(i, _)| i);
+    &s[..end]
+}
+
+/// strips a leading `#[...]` group (balanced brackets, string literals skipped) and following blanks
+fn skip_attr(s: &str) -> &str {
+    let t = s.trim_start();
+    if !t.starts_with("#[") {
+        return t;
+    }
+    let mut depth = 0i32;
+    let mut in_str = false;
+    let mut esc = false;
+    for (i, c) in t.char_indices() {
+        if in_str {
+            if esc {
+                esc = false;
+            } else if c == '\\' {
+                esc = true;
+            } else if c == '"' {
+                in_str = false;
+            }
+            continue;
+        }
+        match c {
+            '"' => in_str = true,
+            '[' => depth += 1,
+            ']' => {
+                depth -= 1;
+                if depth == 0 {
+                    return skip_attr(&t[i + 1..]);
+                }
+            }
+            _ => {}
+        }
+    }
+    ""
+}
+
+struct Idents {
+    names: Vec<(I, String, String)>,
+    consts: Vec<(String, String, String, String)>,
+}
+
+fn parse_const_decl(rest: &str) -> Option<(String, String, String)> {
+    // `NAME: TYPE = VALUE;`
+    let name = name_at(rest);
+    let after = rest[name.len()..].trim_start().strip_prefix(':')?;
+    let eq = after.find(" = ")?;
+    let ty = after[..eq].trim().to_string();
+    let val = after[eq + 3..].trim_end().strip_suffix(';')?.trim().to_string();
+    Some((name.to_string(), ty, val))
+}
+
+fn scan_generated(text: &str, ids: &mut Idents) {
+    #[derive(PartialEq)]
+    enum Ctx {
+        Top,
+        Struct(String),
+        Enum(String),
+        Impl(String),
+        Other(i32),
+    }
+    let mut ctx = Ctx::Top;
+    let mut depth_in_impl = 0i32;
+    for line in text.lines() {
+        let t = line.trim_end();
+        match &mut ctx {
+            Ctx::Top => {
+                if let Some(r) = t.strip_prefix("use ") {
+                    let r = r.trim_end_matches(';');
+                    if let Some(p) = r.rfind("::") {
+                        let last = &r[p + 2..];
+                        if last != "*" {
+                            ids.names.push((6, String::new(), last.to_string()));
+                            // the module path of an import the generator derived from an ASN.1 module name
+                            for seg in r[..p].split("::") {
+                                if seg != "super" && seg != "crate" && !seg.is_empty() {
+                                    ids.names.push((7, String::new(), seg.to_string()));
+                                }
+                            }
+                        }
+                    }
+                } else if let Some(r) = t.strip_prefix("pub const ") {
+                    if let Some((n, ty, v)) = parse_const_decl(r) {
+                        ids.names.push((2, String::new(), n.clone()));
+                        ids.consts.push((String::new(), n, ty, v));
+                    }
+                } else if let Some(r) = t.strip_prefix("pub struct ") {
+                    let n = name_at(r).to_string();
+                    ids.names.push((1, String::new(), n.clone()));
+                    let after = &r[n.len()..];
+                    if after.starts_with('(') {
+                        ids.names.push((2, String::new(), n.clone())); // tuple struct constructor
+                    } else if after.trim_start().starts_with('{') && !after.trim_end().ends_with('}') {
+                        ctx = Ctx::Struct(n);
+                    }
+                } else if let Some(r) = t.strip_prefix("pub enum ") {
+                    let n = name_at(r).to_string();
+                    ids.names.push((1, String::new(), n.clone()));
+                    if !r.trim_end().ends_with('}') {
+                        ctx = Ctx::Enum(n);
+                    }
+                } else if let Some(r) = t.strip_prefix("impl ") {
+                    if t.ends_with('{') {
+                        if r.contains(" for ") {
+                            ctx = Ctx::Other(1);
+                        } else {
+                            ctx = Ctx::Impl(name_at(r).to_string());
+                            depth_in_impl = 1;
+                        }
+                    }
+                }
+            }
+            Ctx::Struct(n) => {
+                if t == "}" {
+                    ctx = Ctx::Top;
+                } else {
+                    let r = skip_attr(t);
+                    let r = r.strip_prefix("pub ").unwrap_or(r);
+                    let f = name_at(r);
+                    if !f.is_empty() {
+                        ids.names.push((3, n.clone(), f.to_string()));
+                    }
+                }
+            }
+            Ctx::Enum(n) => {
+                if t == "}" {
+                    ctx = Ctx::Top;
+                } else {
+                    let r = skip_attr(t);
+                    let v = name_at(r);
+                    if !v.is_empty() {
+                        ids.names.push((4, n.clone(), v.to_string()));
+                    }
+                }
+            }
+            Ctx::Impl(n) => {
+                let tt = t.trim_start();
+                if depth_in_impl == 1 {
+                    if let Some(r) = tt.strip_prefix("pub const fn ").or_else(|| tt.strip_prefix("pub fn ")).or_else(|| tt.strip_prefix("fn ")) {
+                        ids.names.push((5, n.clone(), name_at(r).to_string()));
+                    } else if let Some(r) = tt.strip_prefix("pub const ") {
+                        if let Some((c, ty, v)) = parse_const_decl(r) {
+                            ids.names.push((5, n.clone(), c.clone()));
+                            ids.consts.push((n.clone(), c, ty, v));
+                        }
+                    }
+                }
+                depth_in_impl += tt.matches('{').count() as i32 - tt.matches('}').count() as i32;
+                if depth_in_impl <= 0 {
+                    ctx = Ctx::Top;
+                }
+            }
+            Ctx::Other(d) => {
+                *d += t.matches('{').count() as i32 - t.matches('}').count() as i32;
+                if *d <= 0 {
+                    ctx = Ctx::Top;
+                }
+            }
+        }
+    }
+}
+
+fn op_3402(a: &[I]) -> Vec<I> {
+    let texts = text_of(a);
+    let rusts = match front(&texts) {
+        Ok(r) => r,
+        Err(e) => return e,
+    };
+    let mut ids = Idents { names: Vec::new(), consts: Vec::new() };
+    for rust in &rusts {
+        let (fname, text) = match generate(rust) {
+            Ok(f) => f,
+            Err(e) => return e,
+        };
+        ids.names.push((0, String::new(), fname.strip_suffix(".rs").unwrap_or(&fname).to_string()));
+        let mut local = Idents { names: Vec::new(), consts: Vec::new() };
+        scan_generated(&text, &mut local);
+        // scopes are per generated file
+        for (ns, scope, name) in local.names {
+            let scope = if ns == 0 { scope } else { format!("{}::{}", fname, scope) };
+            ids.names.push((ns, scope, name));
+        }
+        for (scope, n, t, v) in local.consts {
+            ids.consts.push((format!("{}::{}", fname, scope), n, t, v));
+        }
+        if let Ok(file) = syn::parse_file(&text) {
+            for (attr, item) in asn_items(&file) {
+                for name in reparse(attr, item).items {
+                    ids.names.push((1, format!("{}::", fname), name));
+                }
+            }
+        }
+    }
+    let mut out = vec![0, ids.names.len() as I];
+    for (ns, scope, name) in &ids.names {
+        out.push(*ns);
+        p_str(&mut out, scope);
+        p_str(&mut out, name);
+    }
+    out.push(ids.consts.len() as I);
+    for (scope, n, t, v) in &ids.consts {
+        p_str(&mut out, scope);
+        p_str(&mut out, n);
+        p_str(&mut out, t);
+        p_str(&mut out, v);
+    }
+    out
+}
+
+fn op_3403(a: &[I]) -> Vec<I> {
+    let texts = text_of(a);
+    let rusts = match front(&texts) {
+        Ok(r) => r,
+        Err(e) => return e,
+    };
+    let mut out = vec![0, rusts.len() as I];
+    for rust in &rusts {
+        match generate(rust) {
+            Ok((f, t)) => {
+                p_str(&mut out, &f);
+                p_str(&mut out, &t);
+            }
+            Err(e) => return e,
+        }
+    }
+    out
+}
+
+/// kind 0 rust::rust_field_name            1 rust::rust_variant_name     2 rust::rust_struct_or_enum_name
+///      3 rust::rust_module_name(_, false) 4 rust::rust_constant_name
+///      5 RustCodeGenerator::rust_field_name(_, true)   6 RustCodeGenerator::rust_variant_name
+///      7 RustCodeGenerator::rust_module_name
+///      8 field name as emitted   = 5 after 0      9 variant name as emitted = 6 after 1
+fn op_3410(a: &[I]) -> Vec<I> {
+    let Some((kind, rest)) = a.split_first() else { return vec![-2] };
+    let mut s = String::new();
+    for c in rest {
+        match u32::try_from(*c).ok().and_then(char::from_u32) {
+            Some(ch) => s.push(ch),
+            None => return vec![-2],
+        }
+    }
+    use asn1rs_model::rust as r;
+    let m = match kind {
+        0 => r::rust_field_name(&s),
+        1 => r::rust_variant_name(&s),
+        2 => r::rust_struct_or_enum_name(&s),
+        3 => r::rust_module_name(&s, false),
+        4 => r::rust_constant_name(&s),
+        5 => RustCodeGenerator::rust_field_name(&s, true),
+        6 => RustCodeGenerator::rust_variant_name(&s),
+        7 => RustCodeGenerator::rust_module_name(&s),
+        8 => RustCodeGenerator::rust_field_name(&r::rust_field_name(&s), true),
+        9 => RustCodeGenerator::rust_variant_name(&r::rust_variant_name(&s)),
+        _ => return vec![-1],
+    };
+    let mut o = vec![0];
+    o.extend(m.chars().map(|c| c as u32 as I));
+    o
+}
+
+// ------------------------------------------------------------------ op 3412: the attribute type sub-language
+// (encoding: see coq/Extract/OpsCodegen.v)
+
+struct Rd<'a> {
+    a: &'a [I],
+    p: usize,
+}
+impl<'a> Rd<'a> {
+    fn i(&mut self) -> Option<I> {
+        let v = *self.a.get(self.p)?;
+        self.p += 1;
+        Some(v)
+    }
+    fn b(&mut self) -> Option<bool> {
+        match self.i()? {
+            0 => Some(false),
+            1 => Some(true),
+            _ => None,
+        }
+    }
+    fn s(&mut self) -> Option<String> {
+        let n = self.i()?;
+        if n < 0 || self.p + n as usize > self.a.len() {
+            return None;
+        }
+        let mut out = String::new();
+        for _ in 0..n {
+            let c = self.i()?;
+            if !(0..128).contains(&c) {
+                return None;
+            }
+            out.push(c as u8 as char);
+        }
+        Some(out)
+    }
+    fn size(&mut self) -> Option<Size> {
+        Some(match self.i()? {
+            0 => Size::Any,
+            1 => {
+                let n = self.i()?;
+                let e = self.b()?;
+                Size::Fix(usize::try_from(n).ok()?, e)
+            }
+            2 => {
+                let x = self.i()?;
+                let y = self.i()?;
+                let e = self.b()?;
+                Size::Range(usize::try_from(x).ok()?, usize::try_from(y).ok()?, e)
+            }
+            _ => return None,
+        })
+    }
+    fn lit(&mut self) -> Option<LiteralValue> {
+        Some(match self.i()? {
+            0 => LiteralValue::Boolean(self.b()?),
+            1 => LiteralValue::String(self.s()?),
+            2 => LiteralValue::Integer(i64::try_from(self.i()?).ok()?),
+            3 => {
+                let n = self.i()?;
+                if n < 0 {
+                    return None;
+                }
+                let mut v = Vec::new();
+                for _ in 0..n {
+                    v.push(u8::try_from(self.i()?).ok()?);
+                }
+                LiteralValue::OctetString(v)
+            }
+            4 => {
+                let t = self.s()?;
+                LiteralValue::EnumeratedVariant(t, self.s()?)
+            }
+            _ => return None,
+        })
+    }
+    /// the RustType whose `into_asn()` is the encoded attribute type (None: not in the image / malformed)
+    fn ty(&mut self) -> Option<RustType> {
+        use asn1rs_model::asn::Range;
+        Some(match self.i()? {
+            0 => RustType::Bool,
+            1 => RustType::Null,
+            2 => {
+                let (h1, mn, h2, mx, e) = (self.b()?, self.i()?, self.b()?, self.i()?, self.b()?);
+                if h1 && h2 {
+                    RustType::I64(Range(i64::try_from(mn).ok()?, i64::try_from(mx).ok()?, e))
+                } else {
+                    let f = |h: bool, v: I| -> Option<Option<u64>> {
+                        if h {
+                            // U64 -> i64 in into_asn: only values below 2^63 keep their meaning
+                            i64::try_from(v).ok().filter(|v| *v >= 0).map(|v| Some(v as u64))
+                        } else {
+                            Some(None)
+                        }
+                    };
+                    RustType::U64(Range(f(h1, mn)?, f(h2, mx)?, e))
+                }
+            }
+            3 => {
+                let sz = self.size()?;
+                let cs = match self.i()? {
+                    0 => Charset::Utf8,
+                    1 => Charset::Numeric,
+                    2 => Charset::Printable,
+                    3 => Charset::Ia5,
+                    4 => Charset::Visible,
+                    _ => return None,
+                };
+                RustType::String(sz, cs)
+            }
+            4 => RustType::VecU8(self.size()?),
+            5 => RustType::BitVec(self.size()?),
+            6 => RustType::Option(Box::new(self.ty()?)),
+            7 => {
+                let t = self.ty()?;
+                RustType::Default(Box::new(t), self.lit()?)
+            }
+            8 => {
+                let sz = self.size()?;
+                RustType::Vec(Box::new(self.ty()?), sz, EncodingOrdering::Keep)
+            }
+            9 => {
+                let sz = self.size()?;
+                RustType::Vec(Box::new(self.ty()?), sz, EncodingOrdering::Sort)
+            }
+            10 => {
+                let name = self.s()?;
+                let tag = match self.i()? {
+                    0 => None,
+                    1 => {
+                        let c = self.i()?;
+                        let n = usize::try_from(self.i()?).ok()?;
+                        Some(match c {
+                            0 => Tag::Universal(n),
+                            1 => Tag::Application(n),
+                            2 => Tag::ContextSpecific(n),
+                            3 => Tag::Private(n),
+                            _ => return None,
+                        })
+                    }
+                    _ => return None,
+                };
+                RustType::Complex(name, tag)
+            }
+            _ => return None,
+        })
+    }
+}
+
+fn e_size(o: &mut Vec<I>, s: &Size) {
+    p_size(o, s)
+}
+
+fn e_asn(o: &mut Vec<I>, t: &asn1rs_model::asn::Type) -> bool {
+    use asn1rs_model::asn::Type;
+    let opt = |o: &mut Vec<I>, v: &Option<i64>| match v {
+        Some(v) => o.extend([1, *v as I]),
+        None => o.extend([0, 0]),
+    };
+    match t {
+        Type::Boolean => o.push(0),
+        Type::Null => o.push(1),
+        Type::Integer(i) => {
+            o.push(2);
+            opt(o, &i.range.0);
+            opt(o, &i.range.1);
+            o.push(i.range.2 as I);
+        }
+        Type::String(s, c) => {
+            o.push(3);
+            e_size(o, s);
+            p_charset(o, *c);
+        }
+        Type::OctetString(s) => {
+            o.push(4);
+            e_size(o, s)
+        }
+        Type::BitString(b) => {
+            o.push(5);
+            e_size(o, &b.size)
+        }
+        Type::Optional(i) => {
+            o.push(6);
+            return e_asn(o, i);
+        }
+        Type::Default(i, l) => {
+            o.push(7);
+            if !e_asn(o, i) {
+                return false;
+            }
+            p_lit(o, l);
+        }
+        Type::SequenceOf(i, s) => {
+            o.push(8);
+            e_size(o, s);
+            return e_asn(o, i);
+        }
+        Type::SetOf(i, s) => {
+            o.push(9);
+            e_size(o, s);
+            return e_asn(o, i);
+        }
+        Type::TypeReference(n, tag) => {
+            o.push(10);
+            p_str(o, n);
+            match tag {
+                None => o.push(0),
+                Some(t) => p_tag(o, Some(*t)),
+            }
+        }
+        _ => return false,
+    }
+    true
+}
+
+fn e_tokens(o: &mut Vec<I>, ts: proc_macro2::TokenStream) -> bool {
+    use proc_macro2::{Delimiter, TokenTree};
+    for t in ts {
+        match t {
+            TokenTree::Ident(i) => {
+                o.push(1);
+                p_str(o, &i.to_string());
+            }
+            TokenTree::Punct(p) => o.extend([3, p.as_char() as u32 as I]),
+            TokenTree::Literal(l) => {
+                let s = l.to_string();
+                if let Some(inner) = s.strip_prefix('"').and_then(|r| r.strip_suffix('"')) {
+                    if inner.contains('\\') {
+                        return false;
+                    }
+                    o.push(5);
+                    p_str(o, inner);
+                } else if let Some(h) = s.strip_prefix("0x") {
+                    match I::from_str_radix(h, 16) {
+                        Ok(v) => o.extend([2, v]),
+                        Err(_) => return false,
+                    }
+                } else {
+                    match s.parse::<I>() {
+                        Ok(v) => o.extend([2, v]),
+                        Err(_) => return false,
+                    }
+                }
+            }
+            TokenTree::Group(g) => {
+                let inner: Vec<TokenTree> = g.stream().into_iter().collect();
+                o.push(match g.delimiter() {
+                    Delimiter::Parenthesis => 4,
+                    Delimiter::Bracket => 6,
+                    _ => return false,
+                });
+                o.push(inner.len() as I);
+                if !e_tokens(o, g.stream()) {
+                    return false;
+                }
+            }
+        }
+    }
+    true
+}
+
+fn op_3412(a: &[I]) -> Vec<I> {
+    let mut rd = Rd { a, p: 0 };
+    let Some(ty) = rd.ty() else { return vec![-2] };
+    if rd.p != a.len() {
+        return vec![-2];
+    }
+    let def = Definition("T".to_string(), Rust::TupleStruct { r#type: ty, tag: None, constants: Vec::new() });
+    let mut scope = codegen_scope();
+    RustCodeGenerator::default().add_definition(&mut scope, &def);
+    let text = scope.to_string();
+    let Ok(file) = syn::parse_file(&text) else { return vec![1, 5] };
+    let Some(syn::Item::Struct(item)) = file.items.first() else { return vec![1, 6] };
+    let Some(field) = item.fields.iter().next() else { return vec![1, 6] };
+    let Some(attr) = field.attrs.iter().find(|a| is_asn_attr(a)) else { return vec![1, 6] };
+    let syn::Meta::List(list) = &attr.meta else { return vec![1, 6] };
+    let toks: Vec<proc_macro2::TokenTree> = list.tokens.clone().into_iter().collect();
+    let mut out = vec![0, toks.len() as I];
+    if !e_tokens(&mut out, list.tokens.clone()) {
+        return vec![1, 7];
+    }
+    let items = asn_items(&file);
+    let Some((outer, body)) = items.into_iter().next() else { return vec![1, 6] };
+    let parsed = silenced(|| asn1rs_model::proc_macro::parse_asn_definition(outer, body).map(|(d, _)| d));
+    match parsed {
+        Ok(Some(Definition(_, asn))) => {
+            let mut o = vec![0];
+            if e_asn(&mut o, &asn.r#type) {
+                out.extend(o);
+            } else {
+                out.push(1);
+            }
+        }
+        _ => out.push(1),
+    }
+    out
+}
+
+fn codegen_scope() -> codegen::Scope {
+    codegen::Scope::new()
+}
+
+/// Rust lexical facts from an implementation that is not ours: `ident` = proc_macro2 lexes the text as exactly one
+/// identifier token; `keyword` = it is such a token but syn refuses it as an identifier (syn's table of strict and
+/// reserved keywords).
+fn op_3411(a: &[I]) -> Vec<I> {
+    if !a.iter().all(|c| (0..128).contains(c)) {
+        return vec![-3];
+    }
+    let s: String = a.iter().map(|c| *c as u8 as char).collect();
+    let toks: Vec<proc_macro2::TokenTree> = match s.parse::<proc_macro2::TokenStream>() {
+        Ok(ts) => ts.into_iter().collect(),
+        Err(_) => Vec::new(),
+    };
+    // `_` alone is lexed as an identifier token by proc_macro2 but is not an identifier of the language
+    let ident = toks.len() == 1 && matches!(&toks[0], proc_macro2::TokenTree::Ident(i) if i.to_string() == s) && s != "_";
+    let keyword = ident && syn::parse_str::<syn::Ident>(&s).is_err();
+    vec![0, ident as I, keyword as I]
+}
+
+pub fn run(op: I, a: &[I]) -> Vec<I> {
+    let f: fn(&[I]) -> Vec<I> = match op {
+        3401 => op_3401,
+        3402 => op_3402,
+        3403 => op_3403,
+        3410 => op_3410,
+        3411 => op_3411,
+        3412 => op_3412,
+        _ => return vec![-1],
+    };
+    let mut v = match crate::catch(|| f(a)) {
+        Ok(v) => v,
+        Err(c) if op >= 3410 => vec![2, c],
+        Err(c) => vec![2, 0, c],
+    };
+    if op < 3410 {
+        // implementation-only ops: no Coq counterpart. The trailing sentinel lets the checks recognise such an
+        // answer by its shape (Spec.canon) and keep the model/implementation comparison vacuous for exactly these.
+        v.push(IMPL_ONLY);
+    }
+    v
+}
+
+pub const IMPL_ONLY: I = -3400;
